@@ -252,3 +252,35 @@ package chain
 //@   requires c != nil && initStates != nil && stateCtx != nil
 //@   opaque addInitialStakes, SetClientState, mustInitialState, stateToUser
 //@   at-call addInitialStakes assert[genesis-total-is-the-max-supply] scTotalTokens == MAXSUPPLY
+
+// ---------------------------------------------------------------- replicating sharders (C42)
+// Who stores a block: everybody when replication is disabled (configured number of replicators <= 0);
+// otherwise the sharders of the block's round are scored against the block's hash and the configured
+// number (>= 1) is what IsInTop / IsInTopWithNodes is asked for. (Score list properties: package node.)
+//@ uf cfg_num_replicators (Iface) Int
+//@ iface 0chain.net/core/config.ChainConfig.NumReplicators
+//@   params self
+//@   pure
+//@   ensures result == cfg_num_replicators(self)
+//@ iface 0chain.net/chaincore/node.PoolScorer.ScoreHashString
+//@   params self np hash
+//@   pure
+//@   ensures scoresOK(result) && scoresDesc(result)
+//@ func (*Chain).IsBlockSharder
+//@   prop C42
+//@   requires c != nil && b != nil && sharder != nil && b.Round >= 0 && rheld(c.mbMutex) == 0 && held(c.mbMutex) == 0
+//@   ensures[replication-disabled-everybody-stores] old(cfg_num_replicators(c.ChainConfig)) <= 0 ==> result
+//@   at-call ScoreHashString assert[scores-the-blocks-hash] $arg2 == b.Hash
+//@   at-call IsInTop assert[asks-for-the-configured-number] $arg0 == sharder && $arg2 == cfg_num_replicators(c.ChainConfig) && $arg2 >= 1
+//@ func (*Chain).IsBlockSharderFromHash
+//@   prop C42
+//@   requires c != nil && sharder != nil && nRound >= 0 && rheld(c.mbMutex) == 0 && held(c.mbMutex) == 0
+//@   ensures[replication-disabled-everybody-stores] old(cfg_num_replicators(c.ChainConfig)) <= 0 ==> result
+//@   at-call ScoreHashString assert[scores-the-given-hash] $arg2 == bHash
+//@   at-call IsInTop assert[asks-for-the-configured-number] $arg0 == sharder && $arg2 == cfg_num_replicators(c.ChainConfig) && $arg2 >= 1
+//@ func (*Chain).CanShardBlockWithReplicators
+//@   prop C42
+//@   requires c != nil && sharder != nil && nRound >= 0 && rheld(c.mbMutex) == 0 && held(c.mbMutex) == 0
+//@   ensures[replication-disabled-everybody-stores] old(cfg_num_replicators(c.ChainConfig)) <= 0 ==> result0
+//@   at-call ScoreHashString assert[scores-the-given-hash] $arg2 == hash
+//@   at-call IsInTopWithNodes assert[asks-for-the-configured-number] $arg0 == sharder && $arg2 == cfg_num_replicators(c.ChainConfig) && $arg2 >= 1
